@@ -200,6 +200,8 @@ func DriverSource(d Def, pkg string) (string, DriverPlan, error) {
 			fmt.Fprintf(&callB, "\t\tfut := cfg.%s(ctx, req%s)\n\t\tresp, err := fut.Get()\n\t\treturn vd.Res(resp, err)\n", pm.GoName, perNode)
 		case "correctable", "correctablestream":
 			fmt.Fprintf(&callB, `		corr := cfg.%s(ctx, req%s)
+		// the typed accessor may be used at any moment, also before the first reply
+		_, _, _ = corr.Get()
 		select {
 		case <-corr.Done():
 		case <-ctx.Done():
